@@ -1,1 +1,1 @@
-pub use detsim::chan::{bounded, unbounded, Receiver, RecvError, Select, SendError, Sender, TryRecvError};
+pub use detsim::chan::{bounded, unbounded, IntoIter, Iter, Receiver, RecvError, RecvTimeoutError, Select, SendError, Sender, TryIter, TryRecvError, TrySendError};
